@@ -157,6 +157,12 @@ Fixpoint set_val (fuel : nat) (h : heap) (c : nat) (v : option Z) : option heap 
            end
   end.
 Definition VFUEL := 12.
+(* the channels an assignment to c walks through: c, its receiver, that one's receiver ... *)
+Fixpoint chain (fuel : nat) (h : heap) (c : nat) : list nat :=
+  match fuel with
+  | 0 => []
+  | S f => c :: match c_recv (ch h c) with Some r => chain f h r | None => [] end
+  end.
 Definition set_val' h c v := match set_val VFUEL h c v with Some h1 => h1 | None => h end.
 
 (* value_receiver setter: push the sender's value into the new partner, then couple *)
@@ -364,6 +370,11 @@ Definition graft_one (h : heap) (i : nat) (old : nat * string * panel * list nat
 (* (patched discipline only) value links that cross the merged node's boundary live in the parent's scope:
    an output's receiver among the parent's channels is given to the fresh channel, a parent channel whose
    receiver is the old channel is pointed at the fresh one (both through the value_receiver setter) *)
+(* the code re-points the parent's channel through the value_receiver SETTER, which pushes the parent's current
+   value into the fresh channel (known finding C10-relink-pushes-parent-value); [false] = plain re-pointing, the
+   follow-up repair (build/c10_fix2.diff) *)
+Definition RELINK_PUSH : bool := true.
+
 Definition relink_one (h : heap) (i : nat) (old : nat * string * panel * list nat) : heap :=
   match old with
   | (orig, lab, p, _) =>
@@ -379,7 +390,10 @@ Definition relink_one (h : heap) (i : nat) (old : nat * string * panel * list na
           | Some pp =>
               if has_links (n_kind (nd h1 pp)) then
                 fold_left (fun h pc => match c_recv (ch h pc) with
-                                       | Some r => if Nat.eqb r orig then set_receiver h pc new else h
+                                       | Some r => if Nat.eqb r orig then
+                                                     (if RELINK_PUSH then set_receiver h pc new
+                                                      else setc h pc (c_with_recv (ch h pc) (Some new)))
+                                                   else h
                                        | None => h
                                        end) (chans_of h1 pp PIn ++ chans_of h1 pp POut) h1
               else h1
@@ -574,7 +588,9 @@ End Run.
 
 (* ------------------------------------------------------------------ the run cycle of one driven node *)
 Inductive job := JSame (i : nat) | JPick (i : nat) (s : sdata).
-Inductive op := OSet (l : string) (v : Z) | ORun | OComplete | OClear.
+(* OSet: assignment to an input of the driven node; OSetOn: to an input of ANOTHER node (e.g. the enclosing macro,
+   whose input forwards into the driven node through a value link) *)
+Inductive op := OSet (l : string) (v : Z) | ORun | OComplete | OClear | OSetOn (i : nat) (l : string) (v : Z).
 Record cst := mkC { c_heap : heap; c_jobs : list job; c_log : list obs }.
 
 Definition log (s : cst) (h : heap) (jobs : list job) (x : string) : cst := mkC h jobs (c_log s ++ [OS x]).
@@ -645,6 +661,14 @@ Section Cycle.
     match o with
     | OSet l v =>
         match find_chan h X PIn l with
+        | None => log s h (c_jobs s) "KeyError"
+        | Some c => match set_val VFUEL h c (Some v) with
+                    | Some h1 => log s h1 (c_jobs s) "ok"
+                    | None => log s h (c_jobs s) "RuntimeError"
+                    end
+        end
+    | OSetOn i l v =>
+        match find_chan h i PIn l with
         | None => log s h (c_jobs s) "KeyError"
         | Some c => match set_val VFUEL h c (Some v) with
                     | Some h1 => log s h1 (c_jobs s) "ok"
